@@ -166,6 +166,36 @@ pub fn data<T: El>(rng: &mut Rng, shape: &[usize], class: &str) -> ArrayD<T> {
     ArrayD::from_shape_vec(IxDyn(shape), v).expect("data shape")
 }
 
+/// Deterministic rotation of (ownership, data layout, axis layout) over the builds of a run: every second build is
+/// plain (owned, standard layout), the others walk through the non-standard combinations, so that every scenario
+/// exercises reversed / strided / permuted views and owned arrays with unusual strides as data AND as axis,
+/// whatever the seed.
+pub fn next_layout() -> (crate::build::Store, crate::lay::Lay, crate::lay::Lay) {
+    use crate::build::Store::*;
+    use crate::lay::Lay::*;
+    static COUNTER: std::sync::atomic::AtomicUsize = std::sync::atomic::AtomicUsize::new(0);
+    const TABLE: [(crate::build::Store, crate::lay::Lay, crate::lay::Lay); 12] = [
+        (View, Rev, Rev),
+        (Owned, F, C),
+        (View, PermTrail, Strided),
+        (Owned, Rev, Rev),
+        (View, RevTrail, C),
+        (Shared, Perm, C),
+        (View, Strided, Window),
+        (Owned, PermTrail, C),
+        (View, F, Rev),
+        (Owned, RevTrail, Rev),
+        (View, Window, C),
+        (View, Perm, Strided),
+    ];
+    let c = COUNTER.fetch_add(1, std::sync::atomic::Ordering::Relaxed);
+    if c % 2 == 0 {
+        (Owned, C, C)
+    } else {
+        TABLE[(c / 2) % TABLE.len()]
+    }
+}
+
 pub const TRAILING: [&[usize]; 6] = [&[], &[3], &[2, 2], &[1], &[2, 1, 2], &[4]];
 
 /// in-range queries: every knot, both neighbouring floats (clamped into the range), mid points, random
